@@ -11,7 +11,7 @@
    No bound on the number of nodes, inputs, outputs or sinks; names are arbitrary strings. *)
 From Coq Require Import List String Bool Arith ZArith Lia.
 From EKW Require Import Graph.GStore Graph.ExportCheck Graph.Denote Graph.Engine Graph.EngineProofs.
-From EKW Require Import Graph.Copy Graph.Rename Graph.CopyProofs Graph.Dedup Graph.DedupProofs.
+From EKW Require Import Graph.Copy Graph.Rename Graph.CopyProofs Graph.Dedup Graph.DedupProofs Graph.DedupIdem.
 From EKW Require Import Graph.Split Graph.SplitProofs Graph.Expand Graph.ExpandProofs Graph.Fuse Graph.FuseProofs.
 From EKW Require Import Graph.EngineFuel Graph.EngineFuelAll.
 From EKW Require Import Graph.EngineCheck.
@@ -66,13 +66,22 @@ Proof.
   intros P pred Hp g g' H. exact (no_two_equal P pred (heap g) Hp g g' eq_refl H).
 Qed.
 
-(* idempotence: full statement; checked on every generated case by the oracle and by the
-   correspondence, proved here only for the instance below (C11_dedup_idempotent_instance) *)
-Definition C11_dedup_idempotent_statement : Prop :=
-  forall (g g1 g2 : graph pv),
-  topo (heap g) -> deduplicate_nodes (same_payload pv_eqb) g = Ok g1 ->
-  deduplicate_nodes (same_payload pv_eqb) g1 = Ok g2 ->
-  agrees_upto_sink_order (Ok g2) (o_ok g1) = true.
+(* ... and is idempotent: applied to its own result it merges nothing.  The second run maps
+   the reachable nodes of g1 one-to-one (`done`) onto the nodes of g2, keeping names, outputs,
+   payloads, inputs and their order (img), and maps the sinks of g1 onto the sinks of g2 in
+   order.  (The sink order of a run is the model's; the implementation's set order is
+   matched by the checker, see agrees_upto_sink_order.) *)
+Theorem C11_dedup_idempotent :
+  forall (P : Type) (pred : node P -> node P -> bool),
+  (forall a b, pred a b = true <-> npay a = npay b) ->
+  forall g g1 g2 : graph P,
+  deduplicate_nodes pred g = Ok g1 -> deduplicate_nodes pred g1 = Ok g2 ->
+  exists done,
+    Forall2 (fun s s' => In (s, s') done) (sinks g1) (sinks g2) /\
+    (forall m r, In (m, r) done -> reachable (heap g1) (sinks g1) m /\
+       exists nd ndr, nth_error (heap g1) m = Some nd /\ nth_error (heap g2) r = Some ndr /\ img P done nd ndr) /\
+    (forall m m' r, In (m, r) done -> In (m', r) done -> m = m').
+Proof. exact dedup_idempotent. Qed.
 
 (* split_graph, for ANY key function, key equality and cut naming: every sink of the input
    is a sink of one of the parts, and in the parts re-joined along the cut edges (the source
@@ -347,3 +356,4 @@ Print Assumptions C11_split_partition.
 Print Assumptions C11_split_cuts_exact_partial.
 Print Assumptions C11_engine_fuel_sufficient.
 Print Assumptions C11_fuel_all.
+Print Assumptions C11_dedup_idempotent.
